@@ -51,19 +51,33 @@ def regenerate(rep, pid, drv_cpp, defines, headers, out_of_scope, sigs, scalar="
     tmp = os.path.join(core.CACHE, "tr")
     os.makedirs(tmp, exist_ok=True)
     ns = "RkVerif.Gen." + pid
-    text, meta, errors, tr = C.generate(os.path.join(core.ROOT, drv_cpp), os.path.join(tmp, pid + ".lean"),
-                                        ns, core.REPO, inc, list(defines), scalar, struct_names.names(scalar), tmpdir=tmp)
+    snap = os.path.join(core.ROOT, "lean", "RkVerif", "Gen", pid + ".sigs.json")
+
+    def load_snapshot_sigs():
+        # signatures of the wrappers as of the last successful regeneration (committed next to the generated model): with
+        # them the search for a failing input still runs the snapshot of the model against the real code
+        try:
+            import json
+            d = json.load(open(snap))
+            sigs.clear()
+            for k, v in d["signatures"].items():
+                sigs[k] = ([tuple(x) for x in v[0]], v[1])
+            sigs["__fields__"] = {k: [tuple(x) for x in v] for k, v in d["fields"].items()}
+        except Exception:
+            pass
+    try:
+        text, meta, errors, tr = C.generate(os.path.join(core.ROOT, drv_cpp), os.path.join(tmp, pid + ".lean"),
+                                            ns, core.REPO, inc, list(defines), scalar, struct_names.names(scalar), tmpdir=tmp)
+    except Exception as ex:
+        load_snapshot_sigs()
+        return dict(kind="regeneration-failed", error=repr(ex),
+                    note="the translator could not process the current source; the model cannot be regenerated")
     rep.coverage["translated_defs"] = rep.coverage.get("translated_defs", 0) + sum(1 for m in meta if m["kind"] == "def")
     rep.coverage["translated_wrappers"] = rep.coverage.get("translated_wrappers", 0) + len(tr.signatures)
     if errors:
         # the wrappers that did translate keep their signatures, so that the search for a failing input can still run
         # them (against the committed snapshot of the model) although the model could not be regenerated
-        try:
-            sigs.clear()
-            sigs.update(tr.signatures)
-            sigs["__fields__"] = dict(tr.struct_fields)
-        except Exception:
-            pass
+        load_snapshot_sigs()
         return dict(kind="translator-unsupported", errors=errors,
                     note="the current source uses a construct outside the translator's subset; the model cannot be regenerated")
     changed = write_if_changed("lean/RkVerif/Gen/%s.lean" % pid, text)
@@ -74,6 +88,10 @@ def regenerate(rep, pid, drv_cpp, defines, headers, out_of_scope, sigs, scalar="
     sigs.clear()
     sigs.update(tr.signatures)
     sigs["__fields__"] = dict(tr.struct_fields)
+    import json
+    write_if_changed("lean/RkVerif/Gen/%s.sigs.json" % pid, json.dumps(
+        dict(signatures={k: [list(map(list, v[0])), v[1]] for k, v in tr.signatures.items()},
+             fields={k: list(map(list, v)) for k, v in tr.struct_fields.items()}), indent=0, sort_keys=True))
     covered = {m["cxx"] for m in meta if m["kind"] == "def"}
     missing = []
     for hdr in headers:
